@@ -467,9 +467,17 @@ func (e *symbolsEngine) Exec(op string) string {
 			// extensions are left out: extension-number collisions are detected after the commit
 			// (recorded finding), also without any concurrency.
 			if lost == "" {
+				// names that may legitimately be visible: those of the successful imports, and those
+				// of failed files with extensions (such a file may have been committed before its
+				// extension-number collision was noticed — the recorded finding — and then its
+				// names are what made ANOTHER file fail)
 				okNames := map[string]bool{}
 				for gi, id := range ids {
-					if okImp[gi] {
+					hasExt := false
+					for _, sy := range e.defs[id].syms {
+						hasExt = hasExt || sy.kind == "x"
+					}
+					if okImp[gi] || hasExt {
 						for _, sy := range e.defs[id].syms {
 							okNames[sy.name] = true
 						}
